@@ -46,10 +46,10 @@ Lemma panic_allow_not_stale : stale_entries gen_panic_sites panic_allow = [].
 Proof. vm_compute. reflexivity. Qed.
 
 (* the table is not empty and does contain the sites the property names (non-vacuity) *)
-Definition site_rolebinding_assert := mkSite "api/resmap" "getNamespacesForRoleBinding" SkAssert 0.
+Definition site_csv_annotation_panic := mkSite "api/resource" "(*Resource).appendCsvAnnotation" SkPanic 0.
 Definition site_previds_panic := mkSite "api/resource" "(*Resource).PrevIds" SkPanic 0.
 Lemma panic_sites_nonempty :
-  existsb (site_eqb site_rolebinding_assert) gen_panic_sites = true /\
+  existsb (site_eqb site_csv_annotation_panic) gen_panic_sites = true /\
   existsb (site_eqb site_previds_panic) gen_panic_sites = true /\
   20 <= List.length gen_panic_sites /\ 40 <= List.length gen_panic_pkgs.
 Proof. vm_compute. repeat split; repeat constructor. Qed.
